@@ -314,6 +314,28 @@ theorem fact_pos : ∀ n, 0 < fact n
 
 /-! ### the swap probability is the Metropolis ratio -/
 
+/-- the algebra behind `swap_on_chunks`, for arbitrary weight functions -/
+theorem ratio_algebra (wa wb : Op → Rat) (βa βb : Rat) (L na nb : Nat) (A A' B B' : Rat)
+    (hβa : 0 < βa) (hβb : 0 < βb) (hA : 0 < A) (hB : 0 < B) :
+    powi (βa / βb) ((nb : Int) - (na : Int)) * ((A' / A) * (B' / B)) =
+      (βa ^ nb * ((fact (L - nb) : Rat) / (fact L : Rat)) * B') *
+        (βb ^ na * ((fact (L - na) : Rat) / (fact L : Rat)) * A') /
+      ((βa ^ na * ((fact (L - na) : Rat) / (fact L : Rat)) * A) *
+        (βb ^ nb * ((fact (L - nb) : Rat) / (fact L : Rat)) * B)) := by
+  have hx : βa / βb ≠ 0 := div_ne_zero (ne_of_gt hβa) (ne_of_gt hβb)
+  rw [powi_sub hx, div_pow, div_pow]
+  have hA' := ne_of_gt hA
+  have hB' := ne_of_gt hB
+  have hβa' := ne_of_gt hβa
+  have hβb' := ne_of_gt hβb
+  have f1 : ((fact (L - na) : Nat) : Rat) ≠ 0 :=
+    Nat.cast_ne_zero.mpr (Nat.pos_iff_ne_zero.mp (fact_pos _))
+  have f2 : ((fact (L - nb) : Nat) : Rat) ≠ 0 :=
+    Nat.cast_ne_zero.mpr (Nat.pos_iff_ne_zero.mp (fact_pos _))
+  have f3 : ((fact L : Nat) : Rat) ≠ 0 :=
+    Nat.cast_ne_zero.mpr (Nat.pos_iff_ne_zero.mp (fact_pos _))
+  field_simp
+
 theorem pSwap_eval_eq_metropolisRatio (a b : Replica IsingH)
     (hL : a.cutoff = b.cutoff) (hβa : 0 < a.beta) (hβb : 0 < b.beta)
     (hla : LegalIsing a.ham a.cfg.slots) (hlb : LegalIsing b.ham b.cfg.slots)
@@ -323,19 +345,8 @@ theorem pSwap_eval_eq_metropolisRatio (a b : Replica IsingH)
   simp only [if_true]
   rw [relativeWeightIsing_eq_opsProd hs _ hla, relativeWeightIsing_eq_opsProd hs.symm _ hlb,
     opsProd_div, opsProd_div, hL]
-  have hx : a.beta / b.beta ≠ 0 := div_ne_zero (ne_of_gt hβa) (ne_of_gt hβb)
-  rw [powi_sub hx, div_pow, div_pow]
-  have hA := ne_of_gt (opsProd_pos hla)
-  have hB := ne_of_gt (opsProd_pos hlb)
-  have hβa' := ne_of_gt hβa
-  have hβb' := ne_of_gt hβb
-  have f1 : ((fact (b.cutoff - countOps a.cfg.slots) : Nat) : Rat) ≠ 0 :=
-    Nat.cast_ne_zero.mpr (Nat.pos_iff_ne_zero.mp (fact_pos _))
-  have f2 : ((fact (b.cutoff - countOps b.cfg.slots) : Nat) : Rat) ≠ 0 :=
-    Nat.cast_ne_zero.mpr (Nat.pos_iff_ne_zero.mp (fact_pos _))
-  have f3 : ((fact b.cutoff : Nat) : Rat) ≠ 0 :=
-    Nat.cast_ne_zero.mpr (Nat.pos_iff_ne_zero.mp (fact_pos _))
-  field_simp
+  exact ratio_algebra a.ham.wOp b.ham.wOp a.beta b.beta b.cutoff _ _ _ _ _ _ hβa hβb
+    (opsProd_pos hla) (opsProd_pos hlb)
 
 theorem relH_hamEq_one (a b : Replica IsingH) (h : a.ham = b.ham)
     (hla : LegalIsing a.ham a.cfg.slots) (hlb : LegalIsing b.ham b.cfg.slots) :
@@ -354,6 +365,24 @@ theorem pSwap_skip_eq_eval (a b : Replica IsingH) (h : a.ham = b.ham)
   unfold pSwap
   rw [relH_hamEq_one a b h hla hlb]
   simp [relH]
+
+/-! ### the generic sampler -/
+
+theorem relWLoop_eq (w1 w2 : Op → Rat) : ∀ (s : Slots) (t : Rat),
+    (∀ o, some o ∈ s → w2 o ≠ 0) →
+    relWLoop w1 w2 s t = some (t * opsProd (fun o => w1 o / w2 o) s)
+  | [], t, _ => by simp [relWLoop, opsProd]
+  | none :: s, t, h => by
+    simp only [relWLoop, opsProd]
+    exact relWLoop_eq w1 w2 s t (fun o ho => h o (List.mem_cons_of_mem _ ho))
+  | some o :: s, t, h => by
+    have h2 : w2 o ≠ 0 := h o (List.mem_cons_self ..)
+    simp only [relWLoop, opsProd]
+    by_cases h1 : w1 o = 0
+    · simp [h1]
+    · rw [if_neg h1, if_neg h2,
+        relWLoop_eq w1 w2 s _ (fun o ho => h o (List.mem_cons_of_mem _ ho))]
+      congr 1; ring
 
 end Tempering
 end Qmc
